@@ -24,11 +24,12 @@ GENERATED = os.path.join(lib.LEAN_DIR, "Tulz", "Generated", "RouterLocks.lean")
 PROPS = {
     "C11": {
         "design_ref": "6.4/C11",
-        "lean_modules": ["Tulz.Props.C11"],
+        "lean_modules": ["Tulz.Props.C11", "Tulz.Props.C11C06"],
         "theorems": ["Rwp.C11_table_ok", "Rwp.C11_stable_under_read", "Rwp.C11_notify_atomic", "Rwp.C11_mutation_exclusive",
-                     "Rwp.C11_after_unsubscribe", "Rwp.C11_for_this_code", "Rwp.C11_read_lock_is_not_enough", "Rwp.C01_exclusion"],
+                     "Rwp.C11_after_unsubscribe", "Rwp.C11_for_this_code", "Rwp.C11_read_lock_is_not_enough", "Rwp.C01_exclusion",
+                     "Rwp.C11_concurrent_notify_is_C06", "Rwp.CReach.pres"],
         "technique": "Lean 4 invariant proof over the composition (proved rwp lock model) x (abstract router state) with the per-operation lock kinds regenerated from ConcurrentSubjectRouter.h by a translator; lock-step replay + linearizability monitor on the real code under the controlled scheduler",
-        "level_text": "Machine-checked proof, for any number of threads and every interleaving, that while a thread holds the read lock the router state equals the state at the instant its request was granted, that everything one notify/exists/depth reads is the state of that one instant, that a subscribe/unsubscribe/shrink body takes effect only when no other thread is inside any router operation (from C01), and that once the current state excludes an observer no delivery in progress or later sees it. The premise 'every operation runs under a named guard, mutating ones under the write lock' is a kernel-decided fact about a table regenerated from ConcurrentSubjectRouter.h on every run; the theorem C11_read_lock_is_not_enough shows the premise is necessary. The real router is run under the controlled scheduler: its Resource traffic is replayed lock-step on the Rwp model with the generated kinds, and a brute-force linearizability monitor compares every notify's delivered observers with a sequential reference router.",
+        "level_text": "Machine-checked proof, for any number of threads and every interleaving, that while a thread holds the read lock the router state equals the state at the instant its request was granted, that everything one notify/exists/depth reads is the state of that one instant, that a subscribe/unsubscribe/shrink body takes effect only when no other thread is inside any router operation (from C01), and that once the current state excludes an observer no delivery in progress or later sees it. Composed with the concrete router model of C06 (C11_concurrent_notify_is_C06): every state a notify under the read lock looks at yields exactly the C06 delivery on the snapshot taken when its lock was granted. The premise 'every operation runs under a named guard, mutating ones under the write lock' is a kernel-decided fact about a table regenerated from ConcurrentSubjectRouter.h on every run; the theorem C11_read_lock_is_not_enough shows the premise is necessary. The real router is run under the controlled scheduler: its Resource traffic is replayed lock-step on the Rwp model with the generated kinds, and a brute-force linearizability monitor compares every notify's delivered observers with a sequential reference router.",
         "level_note": "Trusted: Lean kernel; C01's trusted base; the lexical translator (named guard on m_resource before the first use of m_router, outermost block); the router is abstract in the theorems (its sequential behaviour is C06/C13); programs of the statement only (callbacks do not call back into the router, no observer invalidation from other threads).",
         "trusted_base": rwpmod.TB + ["translator tools/translators/router_locks.py (lexical: first named rwp::ReadLock/WriteLock on m_resource in the outermost block before m_router is used; anything else is none/temporary/unknown and fails the obligation)",
                                       "the router state is abstract in the theorems; lazy removal of invalidated observers inside notify (a mutation under the read lock) is outside the statement's programs"],
